@@ -65,18 +65,35 @@ def stream_rule(ctx, F, R="R-ORDER"):
     okr = False
     how = "?"
     if len(takes) == 1:
-        t = p.oname(takes[0].args[0], 3)
-        how = t
-        if re.match(r"^(\w+) as usize$", t):
-            nm = t.split(" ")[0]
-            for l, n in p.names.items():
-                if n == nm:
-                    d = p.single_def(l)
-                    if d and d[2] == "rv":
-                        src = p.rvname(d[3], 5)
-                        how = "%s where %s = %s" % (t, nm, src)
-                        if "@Ok.0" in src and "get(&dict" in src:
-                            okr = True
+        how = p.sname(takes[0].args[0], 6)
+        # by data flow: the argument is (an integer cast of) the Ok payload of a chain of Result combinators that starts at
+        # Dictionary::get(dict, "Length")
+        cur = takes[0].args[0]
+        for _ in range(16):
+            q = op_place(cur)
+            if q is None:
+                break
+            if any(not (isinstance(e, dict) and ("f" in e or "v" in e or "down" in e)) for e in q["p"] if e != "*"):
+                break
+            d = p.single_def(q["l"])
+            if d is None:
+                break
+            if d[2] == "rv" and d[3]["k"] in ("use", "cast") and (d[3]["k"] == "use" or d[3]["kind"].startswith("IntToInt")):
+                cur = d[3]["o"]
+                continue
+            if d[2] == "rv" and d[3]["k"] == "ref":
+                cur = {"c": d[3]["p"]}
+                continue
+            if d[2] == "call":
+                fn_ = d[3]["f"].get("fn") or ""
+                if re.search(r"Dictionary::get$", d[3]["f"].get("res") or fn_):
+                    ks = [lib._const_bytes_through(p, a) for a in d[3]["args"][1:]]
+                    okr = ks == [b"Length"]
+                    break
+                if re.search(r"Result::<.*>::(and_then|map|and|or_else)$|ops::Try::branch$", fn_) and d[3]["args"]:
+                    cur = d[3]["args"][0]
+                    continue
+            break
     ctx.ob(R, "stream-length|parser::stream", okr, "the body is take(%s)" % how, p.where(),
            what="parser::stream does not take exactly /Length bytes as the stream body (argument of take: %s): a body is cut or extended depending on its content" % how)
     keys = [lib._const_bytes_through(p, a) for c in lib.calls_named(p, r"Dictionary::get$") for a in c.args[1:]]
